@@ -5,11 +5,12 @@ kind 1  [1; (op arg)*]            SharedFd<OwnedFd>, no runtime
 kind 2  [2; drv; obj; (op arg)*]  pipe Receiver / UnixStream in a Runtime (drv 0 io_uring, 1 polling)
 kind 3  [3; drv; op*]             accept under cancellation
 kind 4  [4; sub; drv; a; b]       timing-dependent programs (oracle only)
+kind 5  [5; drv; op*]             multishot accept (Incoming): queued connections vs drop points
 """
 import random
 
 OPN = {1: "clone", 2: "drop", 3: "opstart", 4: "opfinish", 5: "take", 6: "close", 7: "poll",
-       8: "futdrop", 9: "ownerdrop", 11: "try_unwrap", 12: "opcancel"}
+       8: "futdrop", 9: "ownerdrop", 11: "try_unwrap", 12: "opcancel", 13: "switch-waker"}
 
 
 class Sim:
@@ -27,7 +28,7 @@ class Sim:
             return self.handles > 0
         if op in (4, 12):
             return self.ops > 0
-        if op in (7, 8):
+        if op in (7, 8, 13):
             return arg < len(self.closers) and self.closers[arg] == "fut"
         if op == 9:
             return arg < len(self.closers) and self.closers[arg] == "got"
@@ -39,6 +40,7 @@ def gen_fd_program(rng, rt):
     steps = []
     n = rng.randrange(3, 16)
     style = rng.random()
+    wakers = rng.random() < 0.5      # programs in which futures change wakers between polls
     for _ in range(n):
         alive = [i for i, c in enumerate(sim.closers) if c == "fut"]
         got = [i for i, c in enumerate(sim.closers) if c == "got"]
@@ -52,12 +54,12 @@ def gen_fd_program(rng, rt):
         if sim.ops > 0:
             cand += [(4, 0)] * 3 + [(12, 0)]
         for c in alive:
-            cand += [(7, c)] * 4 + [(8, c)]
+            cand += [(7, c)] * 4 + [(8, c)] + [(13, c)] * (2 if wakers else 0)
         for c in got:
             cand += [(9, c)] * 2
         if r < 0.05 or not cand:
             # an adversarial (possibly disabled) step
-            op = rng.choice([1, 2, 3, 4, 5, 7, 8, 9, 12] + ([6] if rt else [11, 6]))
+            op = rng.choice([1, 2, 3, 4, 5, 7, 8, 9, 12, 13] + ([6] if rt else [11, 6]))
             arg = rng.randrange(0, 4)
             steps.append((op, arg))
         else:
@@ -104,6 +106,53 @@ def gen_fd_program(rng, rt):
     return flat
 
 
+def gen_multishot(rng):
+    """k peers connect, the user pulls j <= k, then the stream is dropped / the runtime goes"""
+    ops = []
+    style = rng.random()
+    if style < 0.6:
+        k = rng.randrange(1, 6)
+        j = rng.randrange(0, k + 1)
+        pre = rng.randrange(0, k + 1) if rng.random() < 0.4 else 0   # peers that connect before the first poll
+        ops += [3] * pre
+        ops += [1]
+        if rng.random() < 0.8:
+            ops += [4]
+        ops += [3] * (k - pre)
+        if rng.random() < 0.8:
+            ops += [4]
+        for _ in range(j):
+            ops += [1]
+            if rng.random() < 0.3:
+                ops += [4]
+        if rng.random() < 0.3:
+            ops += [1]
+        if rng.random() < 0.3:
+            ops += [5] * rng.randrange(0, j + 1)
+        ops += [2]
+        tail = rng.random()
+        if tail < 0.4:
+            ops += [4]
+        elif tail < 0.7:
+            ops += [6]
+        elif tail < 0.85:
+            ops += [4, 6]
+        ops += [5] * rng.randrange(0, 3)
+    else:
+        conn = 0
+        for _ in range(rng.randrange(3, 12)):
+            o = rng.choice([1, 1, 1, 2, 3, 3, 4, 4, 4, 5, 6])
+            if o == 3:
+                if conn >= 6:
+                    o = 4
+                else:
+                    conn += 1
+            ops.append(o)
+    if ops.count(3) > 6:
+        ops = [o for o in ops if o != 3] + []
+    return ops
+
+
 def gen_accept(rng):
     n = rng.randrange(2, 10)
     ops = []
@@ -122,7 +171,8 @@ K4 = ([[4, 0, d, a, b] for d in (0, 1) for a in (0, 1, 2) for b in range(6)] +
       [[4, 1, d, a, b] for d in (0, 1) for a in (1, 3) for b in (0, 1)] +
       [[4, 2, d, a, b] for d in (0, 1) for a in (2, 3, 5) for b in (0, 1)] +
       [[4, 3, d, a, b] for d in (0, 1) for a in (1, 10) for b in (0, 1)] +
-      [[4, 4, d, 0, 0] for d in (0, 1)])
+      [[4, 4, d, 0, 0] for d in (0, 1)] +
+      [[4, 5, d, a, b] for d in (0, 1) for a in (1, 3) for b in (0, 1, 2, 3)])
 
 
 def generate(seed, n):
@@ -138,10 +188,12 @@ def generate(seed, n):
             n4 -= 1
         elif r < 0.40:
             cases.append([1] + gen_fd_program(rng, False))
-        elif r < 0.80:
+        elif r < 0.74:
             cases.append([2, rng.choice([0, 0, 1]), rng.choice([0, 1])] + gen_fd_program(rng, True))
-        else:
+        elif r < 0.86:
             cases.append([3, rng.choice([0, 0, 1])] + gen_accept(rng))
+        else:
+            cases.append([5, rng.choice([0, 0, 1])] + gen_multishot(rng))
     return cases
 
 
@@ -149,17 +201,19 @@ def describe(case):
     k = case[0] if case else 0
     if k == 1:
         ops = case[1::2]
-        return "sharedfd/" + ("two-closers" if sum(1 for o in ops if o == 5) > 1 else
+        return "sharedfd/" + ("wakers/" if 13 in ops else "") + ("two-closers" if sum(1 for o in ops if o == 5) > 1 else
                               "closer" if 5 in ops else "try_unwrap" if 11 in ops else "plain")
     if k == 2:
         ops = case[3::2]
         return ("uring" if case[1] == 0 else "poll") + "/" + ("pipe" if case[2] == 0 else "unix") + "/" + \
-            ("close+take" if (6 in ops and 5 in ops) else "close" if 6 in ops else "take" if 5 in ops else "plain")
+            ("wakers/" if 13 in ops else "") + ("close+take" if (6 in ops and 5 in ops) else "close" if 6 in ops else "take" if 5 in ops else "plain")
     if k == 3:
         return "accept/" + ("uring" if case[1] == 0 else "poll") + ("/rtdrop" if 6 in case[2:] else "")
+    if k == 5:
+        return "multishot/" + ("uring" if case[1] == 0 else "poll") + ("/rtdrop" if 6 in case[2:] else "")
     if k == 4:
         return "timing/%s" % {0: "produce-cancel", 1: "close-mqueue", 2: "concurrent-close", 3: "close-unpolled",
-                              4: "close-vs-inflight"}.get(case[1], "?")
+                              4: "close-vs-inflight", 5: "future-moved-between-wakers"}.get(case[1], "?")
     return "malformed"
 
 
@@ -169,9 +223,11 @@ def nontrivial(case, out):
     k = case[0]
     out = out[2:]
     if k in (1, 2):
-        steps = [out[i:i + 4] for i in range(0, len(out) - 1, 4)]
+        steps = [out[i:i + 5] for i in range(0, len(out) - 1, 5)]
         # some future was polled and the descriptor got closed before the final teardown or a poll completed
         return any(s[2] != 0 for s in steps) or any(s[1] == 0 for s in steps)
     if k == 3:
         return 1 in case[2:] and 3 in case[2:]
+    if k == 5:
+        return 1 in case[2:] and 3 in case[2:] and 2 in case[2:]
     return True
